@@ -112,8 +112,10 @@ type ServerQUIC struct {
 	conf ConfigQUIC
 }
 
-// quicBytePoolSize is the size for the QUIC byte pools.
-const quicBytePoolSize = dns.MaxMsgSize
+// quicBytePoolSize is the size for the QUIC byte pools.  A buffer holds a DNS
+// message of up to [dns.MaxMsgSize] bytes together with its 2-byte length
+// prefix.
+const quicBytePoolSize = dns.MaxMsgSize + 2
 
 // NewServerQUIC creates a new ServerQUIC instance.
 func NewServerQUIC(conf ConfigQUIC) (s *ServerQUIC) {
